@@ -77,7 +77,16 @@ def rust_ty(t):
         return "[" + rust_ty(t[1]) + "; " + str(t[2]) + "]"
     if k == "paren":
         return "(" + rust_ty(t[1]) + ")"
+    if k == "raw":                        # Rust source the Coq type language does not cover (dyn / fn types)
+        return t[1]
     raise ValueError(t)
+
+
+def has_raw(t):
+    if t[0] == "raw":
+        return True
+    return any(has_raw(x) for x in t[1:] if isinstance(x, tuple)) or \
+        any(has_raw(y) for x in t[1:] if isinstance(x, list) for y in x if isinstance(y, tuple))
 
 
 def canon_s(s):
@@ -151,6 +160,8 @@ def subst(t, name, by):
         return (k, subst(t[1], name, by))
     if k == "array":
         return ("array", subst(t[1], name, by), t[2])
+    if k == "raw":
+        return ("raw", re.sub(r"(?<![\w])%s(?![\w])" % name, rust_ty(by), t[1]))
     raise ValueError(t)
 
 
@@ -166,6 +177,8 @@ def py_norm(t):
         h = py_norm(t[1])
         if h == ("id", "GAlias"):
             h = ("id", "G")
+        if h in (("id", "GL"), ("id", "GLAlias")):      # type GL<A, B> = G<A> (through a projection)
+            return ("app", ("id", "G"), [py_norm(t[2][0])])
         return ("app", h, [py_norm(a) for a in t[2]])
     if k == "paren":
         return py_norm(t[1])
@@ -175,6 +188,8 @@ def py_norm(t):
         return ("slice", py_norm(t[1]))
     if k == "array":
         return ("array", py_norm(t[1]), t[2])
+    if k == "raw":
+        return t
     raise ValueError(t)
 
 
@@ -191,8 +206,28 @@ FLAVOURS = {
     # a second generic wrapper (its inherent `into_iter` takes `&self`); State-based derives only
     "h": ("<T>", ["T"], tapp(tid("H"), tid("T")), "S<u32>", tid("u32")),
 }
-AS_FLAVOURS = ("fld", "g", "t")
-CTOR = {"fld": "G", "g": "G", "t": "G", "h": "H"}
+STATIC_STR = ("ref", "static", False, tid("str"))
+
+
+def gl(name, second):
+    return tapp(tid(name), tid("T"), second)
+
+
+FLAVOURS.update({
+    # a struct generic only in a CONST parameter (which may stay unused): the field type is NOT generic, listed
+    # types may or may not mention `N` - per listed type Forwarded vs Specialized within one list
+    "c": ("<const N: usize>", [], tid("Fld"), "S<2>", None),
+    # field types that mention the type parameter BEFORE a lifetime that is not a struct parameter
+    # (`type GL<A, B> = G<A>`): in path arguments, under a trait-object bound, in a fn type
+    "l": ("<T>", ["T"], gl("GL", STATIC_STR), "S<u32>", tid("u32")),
+    "ld": ("<T>", ["T"], gl("GL", ("raw", "Box<dyn Fn(u8) + 'static>")), "S<u32>", tid("u32")),
+    "lf": ("<T>", ["T"], gl("GL", ("raw", "fn(&'static str) -> &'static str")), "S<u32>", tid("u32")),
+})
+CONSTS = {"c": ["N"]}
+STATE_FLAVOURS = ("fld", "g", "t", "h")
+AS_FLAVOURS = ("fld", "g", "t", "c", "l", "ld", "lf")
+SMALL_FLAVOURS = ("ld", "lf")             # no Coq rendering of their field type: oracle + run time only
+CTOR = {"fld": "G", "g": "G", "t": "G", "h": "H", "c": "G", "l": "G", "ld": "G", "lf": "G"}
 
 # candidate listed types per flavour
 AS_TYPES = {
@@ -200,7 +235,13 @@ AS_TYPES = {
     "g": [tapp(tid("G"), tid("T")), tapp(tid("GAlias"), tid("T")), tapp(tqual("crate", "G"), tid("T")), tid("Inner"),
           ("slice", tid("T"))],
     "t": [tid("T"), tid("Inner"), tid("Fld"), ("slice", tid("u32"))],
+    "c": [tid("Fld"), tid("FldAlias"), tqual("crate", "Fld"), tid("Inner"), ("slice", tid("u32")),
+          ("array", tid("u32"), "N"), ("array", tid("u32"), 2)],
 }
+for _f in ("l", "ld", "lf"):
+    _second = FLAVOURS[_f][2][2][1]
+    AS_TYPES[_f] = [gl("GL", _second), gl("GLAlias", _second), tapp(tid("G"), tid("T")), tid("Inner"), ("slice", tid("T")),
+                    tid("str")]
 
 
 def c_fty(case):
@@ -213,10 +254,26 @@ def c_gen(case):
         g = case["x"]
         return (g["src"], g["types"], g["lifetimes"], g["consts"])
     f = FLAVOURS[case["flavour"]]
-    return (f[0], f[1], [], [])
+    return (f[0], f[1], [], CONSTS.get(case["flavour"], []))
+
+
+def inst_len(t, name, val):
+    """instantiate a const parameter used as an array length"""
+    k = t[0]
+    if k == "array":
+        return ("array", inst_len(t[1], name, val), val if t[2] == name else t[2])
+    if k == "app":
+        return ("app", inst_len(t[1], name, val), [inst_len(a, name, val) for a in t[2]])
+    if k == "ref":
+        return ("ref", t[1], t[2], inst_len(t[3], name, val))
+    if k in ("slice", "paren"):
+        return (k, inst_len(t[1], name, val))
+    return t
 
 
 def inst(flav, t):
+    if flav == "c":
+        return inst_len(t, "N", 2)
     by = FLAVOURS[flav][4]
     return t if by is None else subst(t, "T", by)
 
@@ -230,6 +287,10 @@ def rt_class(flav, t):
         return "inner"
     if n == ("slice", ("id", "u32")):
         return "slice"
+    if n == ("array", ("id", "u32"), 2):
+        return "arr"
+    if n == ("id", "str"):
+        return "str"
     raise ValueError(n)
 
 
@@ -314,6 +375,9 @@ def item_src(case, pub=False, both=False):
 
 def coq_expr(case):
     d = case["derive"]
+    if has_raw(c_fty(case)) or any(a[0] == "types" and any(has_raw(t) for t in a[1])
+                                   for fa in [case["sattrs"]] + case["fattrs"] for a in fa):
+        return None
     fty = coq_ty(c_fty(case))
     if d in DKIND:
         fields = "; ".join("(%s, [%s])" % (fty, "; ".join(attr_coq_state(a) for a in fa)) for fa in case["fattrs"])
@@ -590,7 +654,7 @@ def oracle_as(case):
     """impl/doc/as_ref.md (+ as_mut.md): which (field, target, behaviour) triples exist."""
     flav = case["flavour"]
     fty = FLAVOURS[flav][2]
-    params = FLAVOURS[flav][1]
+    params = FLAVOURS[flav][1] + CONSTS.get(flav, [])
 
     def merge(attrs, struct_level):
         cur = None
@@ -672,7 +736,7 @@ def state_positive(rng, d, thorough_variant=0):
 
 def gen_state_cases(rng, tier):
     cases = []
-    flavs = list(FLAVOURS)
+    flavs = list(STATE_FLAVOURS)
     for d in DKIND:
         for n in range(1, 5):
             for marks in itertools.product("NPI", repeat=n):
@@ -732,6 +796,20 @@ def gen_as_cases(rng, tier):
             lists = [[t] for t in tys] + [list(p) for p in itertools.permutations(tys, 2)]
             if flav != "t":
                 lists += [list(p) for p in itertools.permutations(tys, 3)][:: (7 if tier == "quick" else 1)]
+            if flav in ("c", "l"):
+                # generic and non-generic listed types mixed in every order, run-time coherent (one type per class)
+                by_cls = {}
+                for t in tys:
+                    by_cls.setdefault(rt_class(flav, t), []).append(t)
+                for r in (2, 3, 4):
+                    for cl in itertools.combinations(sorted(by_cls), r):
+                        for pick in itertools.product(*[by_cls[x] for x in cl]):
+                            perms = list(itertools.permutations(pick))
+                            if r == 4 and tier == "quick":
+                                perms = rng.sample(perms, 3)
+                            lists += [list(q) for q in perms]
+                seen_l = set()
+                lists = [l for l in lists if not (tuple(map(canon_ty, l)) in seen_l or seen_l.add(tuple(map(canon_ty, l))))]
             # single field: struct-level or field-level
             for level in ("struct", "field"):
                 convs = [("forward",)] + [("types", l) for l in lists]
@@ -759,10 +837,25 @@ def gen_as_cases(rng, tier):
                 {"derive": d, "flavour": flav, "named": False, "sattrs": [], "fattrs": [[("malformed",)]], "group": "as-merge"},
                 {"derive": d, "flavour": flav, "named": False, "sattrs": [], "fattrs": [[("types", [])]], "group": "as-merge"},
             ]
+            # one list spread over several attributes of the same field (merged by the macro), every split point
+            for l in lists:
+                if len(l) >= 2 and (tier == "thorough" or rng.random() < 0.5):
+                    k = rng.randrange(1, len(l))
+                    parts = [l[:k], l[k:]] if len(l) == 2 or rng.random() < 0.5 else [[x] for x in l]
+                    for level in ("struct", "field"):
+                        ats = [("types", q) for q in parts]
+                        cases.append({"derive": d, "flavour": flav, "named": rng.random() < 0.5,
+                                      "sattrs": ats if level == "struct" else [],
+                                      "fattrs": [[] if level == "struct" else ats], "group": "as-split"})
+                        if level == "field":
+                            cases.append({"derive": d, "flavour": flav, "named": rng.random() < 0.5, "sattrs": [],
+                                          "fattrs": [[], ats], "group": "as-split"})
             # several fields of the SAME type: every pattern over none / bare / skip / forward / types
             for n in range(2, 5):
+                if flav in SMALL_FLAVOURS and n > 2:
+                    continue
                 for marks in itertools.product("NESFT", repeat=n):
-                    if tier == "quick" and n == 4 and rng.random() < 0.6:
+                    if tier == "quick" and n == 4 and rng.random() < (0.6 if flav in ("fld", "g", "t") else 0.85):
                         continue
                     fattrs = []
                     for m in marks:
@@ -792,7 +885,10 @@ def gen_exotic_cases(rng, tier):
     ftys = [tref(T, "a"), tref(F, "a"), tref(F, "b"), tref(F, "static", True), ("array", T, "N"), ("array", F, "N"),
             ("array", F, 3), ("array", F, "M"), tapp(T, F), tqual("a", "T"), tapp(tid("Vec"), tqual("a", "T")),
             tapp(tqual("a", "Vec"), T), ("paren", T), ("paren", F), tapp(tid("Box"), ("slice", T)), ("slice", F),
-            tapp(tid("Map"), F, T), tapp(tid("Map"), F, tid("N")), tapp(tapp(tid("W"), F), F), tid("N"), tref(("paren", F))]
+            tapp(tid("Map"), F, T), tapp(tid("Map"), F, tid("N")), tapp(tapp(tid("W"), F), F), tid("N"), tref(("paren", F)),
+            tqual("T", "Assoc"), tapp(tqual("T", "Assoc"), F), tqual("N", "Assoc"), tqual("a", "T", "b"),
+            tapp(tid("Vec"), tqual("T", "Item")), tref(tqual("T", "Assoc"), "b"), tapp(tid("Map"), T, tref(tid("str"), "static")),
+            tapp(tid("Map"), tref(tid("str"), "static"), T), tapp(tid("Map"), tid("N"), tref(tid("str"), "static"))]
     cases = []
     for d in ("AsRef", "AsMut"):
         for fty in ftys:
@@ -818,6 +914,11 @@ pub struct Inner { pub tag: u32 }
 pub type Fld = G<u32>;
 pub type FldAlias = Fld;
 pub type GAlias<T> = G<T>;
+// `GL<A, B>` IS `G<A>`, but its spelling carries a second argument (used for types that mention a lifetime)
+pub trait Fst { type Out; }
+impl<A, B> Fst for (A, B) { type Out = G<A>; }
+pub type GL<A, B> = <(A, B) as Fst>::Out;
+pub type GLAlias<A, B> = GL<A, B>;
 
 pub fn addr<T: ?Sized>(r: &T) -> usize { r as *const T as *const u8 as usize }
 pub fn pos<X: PartialEq>(cand: &[X], got: &X) -> String {
@@ -836,13 +937,14 @@ pub fn changed(before: &[String], after: &[String]) -> String {
 # `(&self.f).into_iter()`, ...) instead of the qualified trait call gets the inherent answer and is observed.
 FIELD_TYPE = r"""
 #[derive(Clone, Debug)]
-pub struct G<T> { pub v: Vec<T>, pub inner: Inner, pub alt: Inner, pub tag: u32, pub shadow: Option<Box<G<T>>> }
+pub struct G<T> { pub v: Vec<T>, pub inner: Inner, pub alt: Inner, pub tag: u32, pub name: String, pub shadow: Option<Box<G<T>>> }
 
 impl G<u32> {
     pub fn new(j: u32) -> Self {
         G { v: vec![10 * j + 1, 10 * j + 2, 10 * j + 3], inner: Inner { tag: 100 + j }, alt: Inner { tag: 300 + j }, tag: j,
+            name: format!("fld{}", j),
             shadow: Some(Box::new(G { v: vec![500 + 10 * j + 1, 500 + 10 * j + 2, 500 + 10 * j + 3], inner: Inner { tag: 800 + j },
-                                      alt: Inner { tag: 600 + j }, tag: 700 + j, shadow: None })) }
+                                      alt: Inner { tag: 600 + j }, tag: 700 + j, name: format!("shadow{}", j), shadow: None })) }
     }
 }
 impl<T> G<T> {
@@ -878,6 +980,11 @@ impl<T> AsRef<Inner> for G<T> { fn as_ref(&self) -> &Inner { &self.inner } }
 impl<T> AsMut<Inner> for G<T> { fn as_mut(&mut self) -> &mut Inner { &mut self.inner } }
 impl<T> AsRef<[T]> for G<T> { fn as_ref(&self) -> &[T] { &self.v[..] } }
 impl<T> AsMut<[T]> for G<T> { fn as_mut(&mut self) -> &mut [T] { &mut self.v[..] } }
+impl<T, const N: usize> AsRef<[T; N]> for G<T> { fn as_ref(&self) -> &[T; N] { <&[T; N]>::try_from(&self.v[..N]).unwrap() } }
+impl<T, const N: usize> AsMut<[T; N]> for G<T> { fn as_mut(&mut self) -> &mut [T; N] { <&mut [T; N]>::try_from(&mut self.v[..N]).unwrap() } }
+// a conversion that holds for ONE instantiation only: a derive that forgets the `FieldTy: AsRef<str>` bound does not compile
+impl AsRef<str> for G<u32> { fn as_ref(&self) -> &str { self.name.as_str() } }
+impl AsMut<str> for G<u32> { fn as_mut(&mut self) -> &mut str { self.name.as_mut_str() } }
 // the reflexive impl does NOT return `self`: a forwarded call is distinguishable from the identity
 impl<T> AsRef<G<T>> for G<T> { fn as_ref(&self) -> &G<T> { self.other() } }
 impl<T> AsMut<G<T>> for G<T> { fn as_mut(&mut self) -> &mut G<T> { self.other_mut() } }
@@ -992,7 +1099,8 @@ def emit_case(case, real):
                 amp = "&mut " if mut else "&"
                 fwd = cand("addr(<" + ftyi + " as " + trn + "<" + ri + ">>::" + m + "(" + amp + "%(a)s))")
                 idn = cand("addr(" + amp + "%(a)s)") if cls == "fld" else "[0usize; 0]"
-                wr = {"fld": "r.tag = 777;", "inner": "r.tag = 777;", "slice": "r[0] = 777;"}[cls]
+                wr = {"fld": "r.tag = 777;", "inner": "r.tag = 777;", "slice": "r[0] = 777;", "arr": "r[0] = 777;",
+                      "str": "r.make_ascii_uppercase();"}[cls]
                 if mut:
                     L += ["  { let mut s = mk(); let ident = %s; let fwd = %s; let before = %s;" % (idn, fwd, fps),
                           "    let got = { let r: &mut %s = <%s as AsMut<%s>>::as_mut(&mut s); %s addr(r) }; let after = %s;" % (ri, sinst, ri, wr, fps)]
@@ -1017,10 +1125,9 @@ def coherent(case, real):
             return len(real) == 1
         t = case["_targets"][k]
         try:
-            rt_class(case["flavour"], t)
+            key = rt_class(case["flavour"], t)    # two impls overlap iff they coincide for the instantiation used
         except ValueError:
             return False    # a listed type the run-time prelude does not define (e.g. struct-level `skip` read as a type)
-        key = canon_ty(py_norm(t))
         if key in seen:
             return False
         seen.add(key)
@@ -1092,7 +1199,8 @@ def run(tier, seed, replay):
     # ---- real expansion (in-process, unmodified sources)
     resps = common.run_jsonl(inproc, [{"cmd": "expand", "derive": c["derive"], "item": item_src(c)} for c in cases])
     # ---- the Coq model on the same inputs
-    exprs = [coq_expr(c) for c in cases]
+    exprs_all = [coq_expr(c) for c in cases]
+    exprs = [e for e in exprs_all if e is not None]
     names = {}
     terms = common.coq_eval(["Verif.C14.Model"], exprs, batch=300, tag="c14")
     names = {v: (k if not k.startswith("'") else k) for k, v in IDS.items()}
@@ -1103,6 +1211,8 @@ def run(tier, seed, replay):
     n_tie = 0
     runtime = []
     rejected = {}
+    it_terms = iter(terms)
+    terms = [next(it_terms) if e is not None else None for e in exprs_all]
     for c, r, t in zip(cases, resps, terms):
         src = item_src(c)
         try:
@@ -1115,8 +1225,12 @@ def run(tier, seed, replay):
             chk.violation("expander-internal-failure", {"case": pub(c), "item": src, "response": real[1]},
                           "derive(%s) on `%s` fails internally: %s" % (c["derive"], src, str(real[1])[:200]))
             continue
-        model = canon_model(t, names)
-        n_tie += 1
+        if t is None:
+            model = real          # no Coq rendering of this field type: doc-rule oracle and run time only
+            chk.bump("no-model (dyn / fn field type)")
+        else:
+            model = canon_model(t, names)
+            n_tie += 1
         opaque = real[0] == "impls" and any(im[3] is None or im[3][0] == "opaque" for im in real[1])
         if opaque:
             chk.violation("unreadable-expansion", {"case": pub(c), "item": src, "model": model, "code": real},
@@ -1170,7 +1284,9 @@ def run(tier, seed, replay):
                     bk = {"direct": "ident", "forwarded": "fwd"}.get(bk, bk)
                 got.append((body_field(body), tr[1], bk))
             if got != exp:
-                ok = False
+                # same (field, target) list but another behaviour: still compiled, the run-time oracle (address of the
+                # field / of the field's own impl result) judges it as well
+                ok = [(f, t_) for (f, t_, _) in got] == [(f, t_) for (f, t_, _) in exp]
                 chk.violation("as-impl-set", {"case": pub(c), "item": src, "expected": exp, "code": got},
                               "derive(%s) on `%s`: expected impls (field, target, behaviour) %s, expansion has %s" %
                               (c["derive"], src, exp, got))
@@ -1208,18 +1324,18 @@ def run(tier, seed, replay):
     chk.cov["traces_validated_against_impl"] = n_tie
 
     # ---- oracle 2: the real macro + rustc at run time
-    limit = 520 if tier == "quick" else 6000
+    limit = 700 if tier == "quick" else 8000
     if len(runtime) > limit:
-        # round-robin over (derive, multi-field?) strata, multi-field structs (the property's point) 5:1
+        # round-robin over (derive, flavour, multi-field?) strata, multi-field structs (the property's point) 2:1
         strata = {}
         for x in runtime:
-            strata.setdefault((x[0]["derive"], len(x[0]["fattrs"]) >= 2), []).append(x)
+            strata.setdefault((x[0]["derive"], x[0]["flavour"], len(x[0]["fattrs"]) >= 2), []).append(x)
         for k in sorted(strata):
             rng.shuffle(strata[k])
         picked = []
         while len(picked) < limit and any(strata.values()):
             for k in sorted(strata):
-                take = 5 if k[1] else 1
+                take = 4 if k[2] else 2
                 picked += strata[k][:take]
                 strata[k] = strata[k][take:]
         runtime = picked[:limit]
@@ -1354,6 +1470,8 @@ def run_rt(chk, runtime):
             n_obs += 1
             chk.count((c["derive"], src, op, kv.get("k"), kv.get("cls")), True)
             chk.bump("rt:" + op)
+            if "cls" in kv:
+                chk.bump("rt:target-class:" + kv["cls"])
             if not is_as:
                 i = exp[1]
                 want = "[%d]" % i
@@ -1411,7 +1529,7 @@ def run_rt(chk, runtime):
                                   "derive(%s) on `%s`: impl #%d (target %s) does not return what `<FieldTy as %s<%s>>::%s(..)` returns when "
                                   "called explicitly on field %d (nor on any other field; identity-of %s)" %
                                   (c["derive"], src, k, tt if tt == "__AsT" else rust_ty(tt), c["derive"],
-                                   {"fld": "Self", "inner": "Inner", "slice": "[T]"}[cls], op, i, kv["ident"]))
+                                   {"fld": "Self", "inner": "Inner", "slice": "[T]", "arr": "[T; N]", "str": "str"}[cls], op, i, kv["ident"]))
                 elif not good:
                     chk.violation("rt-as-wrong-reference", dict(rep, op=op, impl=k, expected=(i, beh)),
                                   "derive(%s) on `%s`: impl #%d (target %s) returns identity-of %s / own-impl-of %s; expected %s of field %d" %
@@ -1424,6 +1542,8 @@ def run_rt(chk, runtime):
         if len(set(vals.values())) > 1:
             chk.violation("rt-iter-forms-differ", dict(rep, vals=vals),
                           "derive(IntoIterator) on `%s`: the owned / & / &mut forms visit different elements: %s" % (src, vals))
+    for m in mods:
+        chk.bump("rt:flavour:" + plan[m][0]["flavour"])
     chk.bump("rt:observations", n_obs)
     chk.bump("rt:structs", len(mods))
     common.cleanup_scratch(name)
